@@ -438,3 +438,63 @@ def typed_payload_lengths(tier, seed):
 def _replay_typed(f):
     i = f['input']
     return decode_any(i['kind'], i['type'], bytes.fromhex(i['body'])) is None
+
+
+# ---------------------------------------------------------------------------------------------------------------------
+# "under any negotiated parameters": the same valid messages on every receive path of Protocol.read_message (routes kept
+# in Adj-RIB-In or not -- the second returns an unparsed placeholder), on the real Peer over loopback TCP: the session
+# stays ESTABLISHED and nothing is answered.
+def _valid_on_config(extra, which):
+    import asyncio
+    from . import sessionharness as S
+
+    async def go():
+        sess = S.Session(extra=extra)
+        inp = {'neighbor_options': extra, 'message': which}
+        try:
+            try:
+                await sess.to_state('ESTABLISHED')
+            except RuntimeError as e:
+                return {'what': f'harness: {e}', 'input': inp, 'harness': True}
+            attrs = W.origin(0) + W.as_path([65002], True) + W.next_hop('192.0.2.1')
+            body = {
+                'announce': W.update_body(b'', attrs, bytes([24, 10, 0, 0])),
+                'withdraw': W.update_body(bytes([24, 10, 0, 0]), b'', b''),
+                'end-of-rib': W.update_body(b'', b'', b''),
+                'announce-twice': W.update_body(b'', attrs, bytes([24, 10, 0, 0])),
+            }[which]
+            await sess.remote.send(S.msg(2, body))
+            if which == 'announce-twice':
+                await sess.remote.send(S.msg(2, body))
+            await asyncio.sleep(0.5)
+            nots = [e for e in sess.log if e[0] == 'sent' and e[2] == 3]
+            state = sess.peer.fsm.name()
+            closed = sess.transport_closed()
+            sess.peer.teardown(2)
+            await sess.finish(4)
+            if nots or state != 'ESTABLISHED' or closed:
+                return {'what': f'a valid UPDATE ({which}) on a session configured with "{extra or "defaults"}" ended it: state {state}' + (f', NOTIFICATION {nots[0][3][0]}/{nots[0][3][1]}' if nots else ', no NOTIFICATION') + (', transport closed' if closed else ''), 'input': inp}
+            return None
+        finally:
+            sess.cleanup()
+
+    return S.run(go(), 30)
+
+
+@bounded('C03', 'valid-updates-on-every-receive-path')
+def valid_updates_on_every_receive_path(tier, seed):
+    import multiprocessing as mp
+
+    cases = [(extra, which) for extra in ('', 'adj-rib-in false;', 'adj-rib-in true;') for which in ('announce', 'withdraw', 'end-of-rib', 'announce-twice')]
+    with mp.get_context('fork').Pool(6) as pool:
+        res = pool.starmap(_valid_on_config, cases)
+    crashes = [r for r in res if r and r.get('harness')]
+    if crashes:
+        raise RuntimeError('session harness failed: ' + crashes[0]['what'])
+    fails = [r for r in res if r]
+    return {'evaluations': len(cases), 'distinct_nontrivial': len(cases), 'bound': '3 neighbor configurations (default, adj-rib-in false, adj-rib-in true; no API subscription to updates) x 4 valid UPDATE shapes sent to the real established Peer over loopback TCP', 'rule': 'one case = (neighbor options, message)', 'samples': [{'neighbor_options': 'adj-rib-in false;', 'message': 'announce'}], 'failures': fails}
+
+
+@replayer('C03', 'valid-updates-on-every-receive-path')
+def _replay_valid_cfg(f):
+    return _valid_on_config(f['input']['neighbor_options'], f['input']['message']) is None
